@@ -57,15 +57,24 @@ class AbsSim:
     def _snap(self, p):
         return [p[i] for i in range(self.S)]
 
-    def apply_repeated_rules(self, state, t, rule_step):
-        self.log.append(("rules", self._snap(state), t, rule_step, None))
-        if self.rule_effect:
-            self.rule_effect(state, t, rule_step, None)
-
-    def apply_repeated_volume_rules(self, state, V, t, rule_step):
-        self.log.append(("rules", self._snap(state), t, rule_step, V))
+    def _rules(self, state, t, rule_step, V):
+        pre = self._snap(state)
         if self.rule_effect:
             self.rule_effect(state, t, rule_step, V)
+        self.log.append(("rules", pre, t, rule_step, V, self._snap(state)))
+
+    def apply_repeated_rules(self, state, t, rule_step):
+        self._rules(state, t, rule_step, None)
+
+    def apply_repeated_volume_rules(self, state, V, t, rule_step):
+        self._rules(state, t, rule_step, V)
+
+    def havoc_rules(self):
+        """rules become an arbitrary map of the state (fresh values written into every component)"""
+        def eff(state, t, rs, V):
+            for i in range(self.S):
+                state[i] = self.c.fresh_real("ruled")
+        self.rule_effect = eff
 
     def _props(self, state, dest, t, V):
         snap = self._snap(state)
